@@ -112,10 +112,40 @@ func (u *Universe) plans(st *SpecTables) map[string]*PropPlan {
 			{Func: "v2m.Base.GetError"}, {Func: "v2m.Base.Score", Families: []string{"base"}},
 			{Func: "v2m.Temporal.IsEmpty"}, {Func: "v2m.Temporal.GetError"},
 			{Func: "v2m.Environmental.IsEmpty"}, {Func: "v2m.Environmental.GetError"},
-			{Func: "v2m.Environmental.Score", Families: []string{"adjbase", "adjtemp", "final", "final0", "none", "none0"}},
+			{Func: "v2m.Environmental.Score", Families: []string{"adjbase", "adjgrid", "adjtemp", "final", "final0", "none", "none0"}},
 		}),
 		Assumptions: []string{"A9", "A10"},
 		Meta: []string{"Stages: 'adjbase' (adjusted base score is a nearest tenth of the base equation on AdjustedImpact, 46,656 instances), 'adjtemp' (temporal equation on every adjusted base score -2.0..10.0), 'final'/'final0' (CDP/TD equation on every adjusted temporal score), 'none'/'none0' (environmental group absent: temporal score). Exact halves may round either way at every rounding step (near1)."},
+	}
+	scoreUnitsV3 := []Unit{
+		{Func: "v3m.Base.GetError"}, {Func: "v3m.Temporal.GetError"}, {Func: "v3m.Environmental.GetError"},
+		{Func: "v3m.Base.Score", Families: []string{"base"}},
+		{Func: "v3m.Temporal.Score", Families: []string{"temporal"}},
+		{Func: "v3m.Environmental.Score", Families: []string{"inner", "outer"}},
+	}
+	scoreUnitsV2 := []Unit{
+		{Func: "v2m.Base.GetError"}, {Func: "v2m.Temporal.IsEmpty"}, {Func: "v2m.Temporal.GetError"}, {Func: "v2m.Environmental.IsEmpty"}, {Func: "v2m.Environmental.GetError"},
+		{Func: "v2m.Base.Score", Families: []string{"base"}},
+		{Func: "v2m.Temporal.Score", Families: []string{"temporal", "empty"}},
+		{Func: "v2m.Environmental.Score", Families: []string{"adjgrid", "adjtemp", "final", "final0", "none", "none0"}},
+	}
+	P["C06"] = &PropPlan{ID: "C06", Title: "scores lie on the tenth grid in range; severity is the band of the same level's score",
+		Units: cat(v3(), v2(), scoreUnitsV3, scoreUnitsV2, []Unit{
+			{Func: "v3m.severity"}, {Func: "v3m.Severity.String"},
+			{Func: "v3m.Base.Severity", Families: []string{"sev"}}, {Func: "v3m.Temporal.Severity", Families: []string{"sev"}}, {Func: "v3m.Environmental.Severity", Families: []string{"sev"}},
+			{Func: "v2m.severity"}, {Func: "v2m.Severity.String"},
+			{Func: "v2m.Base.Severity", Families: []string{"sev"}}, {Func: "v2m.Temporal.Severity", Families: []string{"sev"}}, {Func: "v2m.Environmental.Severity", Families: []string{"sev"}},
+			{Lemma: "v3_grid_prints"},
+		}),
+		Assumptions: []string{"A5", "A9", "A10"},
+		Meta: []string{"Grid and range: every Score() postcondition of the score families has the form result === tenth(k) (v3) or result fp-equal to a nearest tenth with explicit range bounds (v2), with 0 <= k <= 100 (v2 environmental: -20..100 where the FIRST equation itself is negative); invalid objects score +0.0 ([C12] postconditions). Severity(): for every grid value ks of the same level's Score() (replace family over 0..100, v2 incl. -0.0) the result is the rating band of ks; a Severity() that consults another level's score does not reach the replaced call and fails the cut-point obligation. Printing: strconv.FormatFloat of each of the 101 grid doubles is the decimal with at most one digit (oracle table produced by the real function in this run)."},
+	}
+	P["C13"] = &PropPlan{ID: "C13", Title: "Not Defined neutrality; temporal never exceeds base",
+		Units: cat(v3("E", "RL", "RC", "CR", "IR", "AR", "MAV", "MAC", "MPR", "MUI", "MS", "MC", "MI", "MA"), v2("E", "RL", "RC", "TD", "CDP"), scoreUnitsV3, scoreUnitsV2, []Unit{
+			{Lemma: "v3_env_neutral"}, {Lemma: "v3_eff_neutral"}, {Lemma: "v3_temporal_neutral"}, {Lemma: "v3_temporal_le_base"},
+		}),
+		Assumptions: []string{"A5", "A9", "A10"},
+		Meta: []string{"v3/v2 temporal with E, RL, RC Not Defined equals the base score and temporal <= base: conjuncts of the temporal families' postconditions (result === tenth(kb) when all three are Not Defined; v3_outer_k(kb,...) <= kb; v2: result <= tenth(kb)). v3 environmental with all environmental metrics Not Defined: the Modified*.Value contracts give the base weights (lemma v3_eff_neutral), lemma family v3_env_neutral (5,184 instances, spec side) shows equal zero cut-off and equal inner Roundup unless scope changed and version 3.1, and the outer stage is the same function v3_outer_k as the temporal score; with C03 and C02 this is environmental == temporal. v2 Target Distribution None => 0: conjunct of the final-stage families."},
 	}
 	P["C20"] = &PropPlan{ID: "C20", Title: "value codes, enumeration values and weights form the specification's tables",
 		Units: cat(v3(), v2(), []Unit{{Func: "v3m.Version.String"}, {Func: "v3m.get"}}),
